@@ -58,6 +58,9 @@ EXTRA_ENGINES = {"C13": [("netwalk", 2)]}
 
 DIRECT_REPLAY = {"C01", "C02", "C03", "C04", "C08", "C13", "C05", "C06", "C07", "C18", "C15", "C11", "C12"}
 
+# packages whose "sync" import is replaced by harness/vsync (locks that block on channels)
+SHIM_DIRS = ["notification", "transports/websocket", "transports/http/client"]
+
 LEVEL = "model_checking"
 LEVELS = {"C05": "fault_enumeration", "C17": "fault_enumeration", "C19": "exploration", "C20": "exploration", "C14": "exploration"}
 
@@ -119,6 +122,22 @@ def make_overlay(extra_replace=None, tag=""):
             rep[dst] = src
     for k, v in (extra_replace or {}).items():
         rep.setdefault(os.path.join(REPO, k), v)
+    # sync -> vsync in the notification packages (see harness/vsync): every non-test file there
+    # that imports "sync", in the text the build would otherwise use (working tree, mutant, patch)
+    for d in SHIM_DIRS:
+        names = set(f for f in os.listdir(os.path.join(REPO, d)) if f.endswith(".go")) if os.path.isdir(os.path.join(REPO, d)) else set()
+        names |= set(os.path.basename(k) for k in (extra_replace or {}) if os.path.dirname(k) == d and k.endswith(".go"))
+        for f in sorted(names):
+            if f.endswith("_test.go"):
+                continue
+            target = os.path.join(REPO, d, f)
+            base = rep.get(target, target)
+            text = open(base).read()
+            new = re.sub(r'(?m)^(\s*)"sync"\s*$', r'\1sync "github.com/bitcoin-sv/block-headers-service/verifh/vsync"', text, count=1)
+            if new != text:
+                gen = os.path.join(BUILD, "shim%s_%s_%s" % (tag, d.replace("/", "_"), f))
+                open(gen, "w").write(new)
+                rep[target] = gen
     path = os.path.join(BUILD, "overlay%s.json" % tag)
     json.dump({"Replace": rep}, open(path, "w"), indent=1)
     return path
